@@ -41,7 +41,8 @@ pub enum RgPlan {
 pub fn gen_plan(rng: &mut Prng) -> RgPlan {
     if rng.chance(2, 3) {
         let undirected = rng.coin();
-        let v = rng.range(0, 9);
+        // mostly small graphs; sometimes two-digit vertex numbers
+        let v = if rng.chance(1, 6) { rng.range(10, 14) } else { rng.range(0, 9) };
         let max = if undirected { v * v.saturating_sub(1) / 2 } else { v * v.saturating_sub(1) };
         // half feasible-interior, a quarter at the exact maximum, a quarter infeasible / degenerate
         let e = match rng.below(8) {
